@@ -153,8 +153,54 @@ def reference_graph(repo: Repo):
         for cname, node in mod.constants.items():
             if cname == "handlers":
                 continue            # the registry itself mentions every decoder
-            g.setdefault(f"{mod.name}:{cname}", refs(mod, node))
+            special = _factory_row_refs(repo, mod, node, refs)
+            g.setdefault(f"{mod.name}:{cname}", refs(mod, node) if special is None else special)
     return g
+
+
+def _factory_row_refs(repo: Repo, mod: ModuleInfo, node, refs):
+    """`NAME = factory('key')` where the factory reads `TABLE[key]` from a module-level dict literal: NAME mentions what the
+    factory mentions and what that one row mentions - not every row of the table (which names every result class)."""
+    if not (isinstance(node, ast.Call) and node.args and not node.keywords
+            and all(isinstance(a, ast.Constant) for a in node.args)):
+        return None
+    dn = repo.dotted(mod, node.func)
+    found = repo.lookup(dn) if dn and dn.startswith("pykdebugparser.") else None
+    if not found or found[0] != "func":
+        return None
+    fmod, fn = found[1], found[2]
+    params = [a.arg for a in fn.args.args]
+    if len(node.args) > len(params) or fn.args.vararg or fn.args.kwarg:
+        return None
+    bound = {p_: a.value for p_, a in zip(params, node.args)}
+    stored = {n.id for n in ast.walk(fn) if isinstance(n, ast.Name) and isinstance(n.ctx, ast.Store)}
+    rows = {}           # table name -> row node
+    for n in ast.walk(fn):
+        if isinstance(n, ast.Subscript) and isinstance(n.ctx, ast.Load) and isinstance(n.value, ast.Name) \
+                and isinstance(n.slice, ast.Name) and n.slice.id in bound and n.slice.id not in stored:
+            tdn = repo.dotted(fmod, n.value)
+            t = repo.lookup(tdn) if tdn else None
+            if t and t[0] == "const" and isinstance(t[2], ast.Dict) and all(isinstance(k, ast.Constant) for k in t[2].keys):
+                hit = [v for k, v in zip(t[2].keys, t[2].values) if k.value == bound[n.slice.id]]
+                if hit:
+                    rows[n.value.id] = (t[1], hit[-1])
+    if not rows:
+        return None
+    # the table must be used by the factory only through these subscripts
+    for name in rows:
+        uses = [n for n in ast.walk(fn) if isinstance(n, ast.Name) and n.id == name]
+        subs = [n for n in ast.walk(fn) if isinstance(n, ast.Subscript) and isinstance(n.value, ast.Name) and n.value.id == name
+                and isinstance(n.slice, ast.Name) and n.slice.id in bound]
+        if len(uses) != len(subs):
+            return None
+    out = set()
+    table_nodes = set()
+    for name, (tmod, row) in rows.items():
+        out |= refs(tmod, row)
+        t = repo.lookup(repo.dotted(fmod, ast.Name(id=name, ctx=ast.Load())))
+        table_nodes.add(f"{t[1].name}:{name}")
+    out |= {r for r in refs(fmod, fn) if r not in table_nodes}
+    return out
 
 
 def decoder_reach(repo: Repo):
@@ -243,7 +289,67 @@ def check(repo: Repo, run: Run) -> None:
     run.analysed.update({"functions_scanned": n_units, "host_dependent_outputs": total, "registry_decoders": len(reach)})
     run.analysed["modules_scanned"] = n_mods
     run.floor("R1", "modules scanned", n_mods, MODULE_FLOOR)
+    check_host_timezone(repo, run)
     _canary(repo, run)
+
+
+TZ_METHODS = {"astimezone": 0, "fromtimestamp": 1}      # method -> position of the time-zone argument
+
+
+def _may_be_none(t) -> bool:
+    """Is None one of the values the term is built to take (a literal None, or None on a branch of a conditional)?"""
+    from ..sym import const
+    if t == const(None):
+        return True
+    if t.op == "ite":
+        return _may_be_none(t.a[1]) or _may_be_none(t.a[2])
+    if t.op == "bool":
+        return any(_may_be_none(x) for x in t.a[1])
+    if t.op == "widen":
+        return any(_may_be_none(x) for x in t.a[2] if x.op != "widen")
+    return False
+
+
+def check_host_timezone(repo: Repo, run: Run) -> None:
+    """R3: a datetime is converted with the time zone the expression is given; with no zone, or with None, datetime uses the
+    zone of the machine the tool runs on.  Every `.astimezone(...)` / `datetime.fromtimestamp(...)` in the package is looked
+    at after interpretation of its function (helpers inlined): the zone argument must not be absent nor possibly None."""
+    from .. import sym
+    interp = sym.Interp(repo)
+    n = 0
+    for mod in repo.modules.values():
+        short = mod.name[len("pykdebugparser."):] if mod.name.startswith("pykdebugparser.") else mod.name
+        if not short.startswith(SCOPE_MODULES):
+            continue
+        units = [(None, f) for f in mod.functions.values()]
+        for ci in mod.classes.values():
+            units.extend((ci, m) for m in ci.methods.values() if repo.fn_home.get(id(m)) is mod)
+        for ci, fn in units:
+            if not any(isinstance(x, ast.Attribute) and x.attr in TZ_METHODS for x in ast.walk(fn)):
+                continue
+            rec = interp.run(mod, fn, self_cls=ci)
+            qn = f"{ci.name}.{fn.name}" if ci else fn.name
+            for c in rec.calls:
+                f = c.func
+                meth = f.a[1] if f.op == "attr" else (f.a[0].rsplit(".", 1)[-1] if f.op == "global" else None)
+                if meth not in TZ_METHODS or not c.where.endswith(fn.name):
+                    continue
+                if f.op == "global" and f.a[0] != "datetime.datetime.fromtimestamp":
+                    continue
+                pos = TZ_METHODS[meth]
+                kw = dict(c.kwargs)
+                tz = c.args[pos] if len(c.args) > pos else kw.get("tz")
+                n += 1
+                ok = tz is not None and not _may_be_none(tz)
+                run.ob("R3", mod.name, qn, f"{meth}: explicit time zone", ok,
+                       "" if ok else
+                       f"{meth}() at line {c.lineno} is " + ("called without a time zone" if tz is None else
+                       f"given a time zone that is None on some path ({sym.pretty(tz)[:80]})") +
+                       ": datetime then converts to the local zone of the machine the tool runs on, so the printed time "
+                       "depends on the host, not only on the dump", line=c.lineno,
+                       witness="the same dump formatted with TZ=UTC and with TZ=Asia/Tokyo")
+    run.analysed["timezone_conversions"] = n
+    run.floor("R3", "datetime conversions with a time-zone argument", n, 1)
 
 
 CANARY = '''
